@@ -35,3 +35,22 @@ def guard():
     finally:
         signal.setitimer(signal.ITIMER_REAL, 0)
         signal.signal(signal.SIGALRM, old)
+
+
+_installed = [False]
+
+
+def arm(limit_s=None):
+    """Cheap form for tight loops over pure code: (re)start the timer; disarm() stops it. The
+    handler is installed once per process (main thread only)."""
+    if threading.current_thread() is not threading.main_thread():
+        return
+    if not _installed[0]:
+        signal.signal(signal.SIGALRM, _handler)
+        _installed[0] = True
+    signal.setitimer(signal.ITIMER_REAL, limit_s or LIMIT_S)
+
+
+def disarm():
+    if _installed[0] and threading.current_thread() is threading.main_thread():
+        signal.setitimer(signal.ITIMER_REAL, 0)
